@@ -1297,10 +1297,19 @@ func (c *Canonicalizer) funcRefName(f *ssa.Function) string {
 		if cur == f {
 			return "$self"
 		}
+		// Instantiations of a generic function and bound-method/thunk wrappers are separate SSA
+		// functions that carry the declared function's name: they are the function itself too.
+		if cur != nil && f.Object() != nil && f.Object() == cur.Object() {
+			return "$self" + strings.TrimPrefix(f.Name(), cur.Name())
+		}
 		// A function of another package is named with its package (and receiver), so that
 		// functions that merely share a name and a signature (path.Join / filepath.Join,
 		// utf8.RuneLen / utf16.RuneLen) do not render alike.
-		if cur != nil && f.Pkg != nil && f.Pkg != cur.Pkg {
+		pkg := f.Pkg
+		if pkg == nil && f.Origin() != nil {
+			pkg = f.Origin().Pkg
+		}
+		if cur != nil && pkg != nil && pkg != cur.Pkg {
 			return f.String()
 		}
 		return f.Name()
